@@ -1,3 +1,97 @@
+/-
+C08 - property theorems: reductions drop exactly the reduced axis, keep the others in their order
+with their labels and the metadata, reduce exactly the fibre along that axis; the NaN policy of the
+function-family table of the implementation (regenerated on every run).
+-/
 import DimModel.Lib.Transform
+import DimModel.Gen.TableC08
 namespace DimModel
+open Lib
+
+/-- **axes**: reducing along position `pos` of an array of rank ≥ 2 returns the remaining axes in
+their original order (each with its labels and metadata), the array's metadata, and every result
+cell is the reduction of the 1-D fibre through it -/
+theorem reduce_axes_spec {α : Type} (red : List α → α) (a : DimArray α) (k : DimKey) (pos : Nat) (r : DimArray α)
+    (hpos : dealWithAxis a (.one k) = .ok (a, some pos)) (hrank : a.ndim ≠ 1)
+    (h : reduceAxis red a (.one k) = .ok (.inr r)) :
+    r.axes = a.axes.eraseIdx pos ∧ r.attrs = a.attrs ∧ r.vals.shape = a.vals.shape.eraseIdx pos ∧
+    ∀ j, r.vals.get j = red (fibre a pos j) := by
+  unfold reduceAxis at h
+  simp only [hpos, bind, Except.bind] at h
+  have : (a.ndim == 1) = false := by simpa using hrank
+  simp only [this, Bool.false_eq_true, if_false, pure, Except.pure] at h
+  cases h
+  exact ⟨rfl, rfl, rfl, fun _ => rfl⟩
+
+/-- the fibre through result index `j` consists of the cells at `j` with every position inserted
+along the reduced dimension, in axis order -/
+theorem fibre_get {α : Type} (a : DimArray α) (pos : Nat) (j : List Nat) (i : Nat)
+    (hi : i < a.vals.shape.getD pos 0) :
+    (fibre a pos j)[i]'(by simpa [fibre] using hi) = a.vals.get (j.insertIdx pos i) := by
+  simp [fibre]
+
+theorem fibre_length {α : Type} (a : DimArray α) (pos : Nat) (j : List Nat) :
+    (fibre a pos j).length = a.vals.shape.getD pos 0 := by simp [fibre]
+
+/-- a dimension may be given by name or by (possibly negative) position interchangeably -/
+theorem dealWithAxis_name_pos {α : Type} (a : DimArray α) (pos : Nat) (hpos : pos < a.dims.length)
+    (hn : a.dims.Nodup) :
+    dealWithAxis a (.one (.name (a.dims[pos]))) = dealWithAxis a (.one (.pos pos)) ∧
+    dealWithAxis a (.one (.pos ((pos : Int) - a.ndim))) = dealWithAxis a (.one (.pos pos)) := by
+  have hnd : a.ndim = a.dims.length := by simp [DimArray.ndim, DimArray.dims]
+  constructor
+  · simp only [dealWithAxis, pure, Except.pure, bind, Except.bind]
+    have h1 : a.dims.idxOf a.dims[pos] = pos := List.Nodup.idxOf_getElem hn pos hpos
+    have h2 : ¬ ((pos : Int) < 0) := by omega
+    have h3 : ¬ ((pos : Int) ≥ (a.ndim : Int)) := by omega
+    simp [h1, hpos, h2, h3]
+  · simp only [dealWithAxis, pure, Except.pure, bind, Except.bind]
+    have h1 : ((pos : Int) - (a.ndim : Int)) < 0 := by omega
+    have h2 : ¬ ((pos : Int) < 0) := by omega
+    have h3 : ¬ ((pos : Int) ≥ (a.ndim : Int)) := by omega
+    have h4 : (pos : Int) - (a.ndim : Int) + (a.ndim : Int) = pos := by omega
+    simp [h1, h2, h3, h4]
+
+/-- axis=None reduces the whole array to one scalar -/
+theorem reduce_none_scalar {α : Type} (red : List α → α) (a : DimArray α) :
+    reduceAxis red a .none = .ok (.inl (red a.vals.toList)) := by
+  simp [reduceAxis, dealWithAxis, bind, Except.bind, pure, Except.pure]
+
+/-- a tuple of dimensions is reduced over the flattened group (C11): same object as reducing axis 0
+of `flatten(dims, insert=0)` -/
+theorem reduce_tuple_eq_flatten {α : Type} (red : List α → α) (a o : DimArray α) (names : List String)
+    (hall : ∀ s ∈ names, a.dims.contains s = true) (hf : flatten a names (some 0) = .ok o) :
+    reduceAxis red a (.many (names.map DimKey.name)) = reduceAxis red o (.one (.pos 0)) ∨
+    o.ndim = 0 := by
+  by_cases h0 : o.ndim = 0
+  · exact Or.inr h0
+  · left
+    have hm : (names.map DimKey.name).mapM (keyName a) = .ok names := by
+      clear hf
+      induction names with
+      | nil => rfl
+      | cons s rest ih =>
+        have hs := hall s (by simp)
+        have ih' := ih (fun t ht => hall t (by simp [ht]))
+        have h1 : keyName a (DimKey.name s) = .ok s := by simp only [keyName, hs, if_true]
+        simp only [List.map_cons, List.mapM_cons, h1, ih', bind, Except.bind, pure, Except.pure]
+    have hpos : (0 : Int) < (o.ndim : Int) := by omega
+    simp only [reduceAxis, dealWithAxis, bind, Except.bind, hm, hf, pure, Except.pure]
+    have h1 : ¬ ((0 : Int) < 0) := by omega
+    have h2 : ¬ ((0 : Int) ≥ (o.ndim : Int)) := by omega
+    simp only [h1, h2, if_false, decide_false, Bool.or_false, Bool.false_eq_true, Int.toNat_zero]
+
+/-! ### the function-family table of the implementation (regenerated on every run) -/
+
+/-- **NaN policy**: with skipna=False `_get_func` never selects a NaN-skipping family (median goes
+through the wrapper that restores NaN), with skipna=True it always selects one -/
+theorem getFunc_table_policy :
+    ∀ r ∈ Gen.getFuncTable,
+      (r.2.1 = false → (r.2.2 = "plain" ∨ (r.1 = "median" ∧ r.2.2 = "mediannan"))) ∧
+      (r.2.1 = true → (r.2.2 = "nanfunc" ∨ r.2.2 = "masked")) := by decide
+
+theorem getFunc_table_covers :
+    ∀ f ∈ ["sum", "prod", "mean", "var", "std", "min", "max", "ptp", "all", "any", "median"],
+      ∀ s ∈ [false, true], (Gen.getFuncTable.any fun r => r.1 == f && r.2.1 == s) = true := by decide
+
 end DimModel
